@@ -86,6 +86,11 @@ func FuzzRoundTrip(f *testing.F) {
 		{`[1,1,2,2,3,3]`, `[3,3,1,1]`},
 		{`{"x":[[],{}],"y":null}`, `{"x":[{},[]],"z":{"__key":"k"}}`},
 		{`[0,1,2,3,4,5,6,7,8,9]`, `[9,0,1,2,3,4,5,6,7,8]`},
+		{`{"a":{"__key":1,"x":1},"b":{"y":2}}`, `{"a":{"x":1},"b":{"__key":"k","y":2}}`},
+		{`{"l":[1,2,3],"m":[[1],[2]]}`, `{"l":[],"m":[[],[2]]}`},
+		{`[{"__key":"a","v":[1,2]},{"__key":"b","v":{"w":null}}]`, `[{"__key":"b","v":{"w":1}},{"__key":"a","v":[2]},{"v":3}]`},
+		{`{"a":[],"b":{},"c":null,"d":"s","e":true,"f":1.5}`, `{"a":{},"b":[],"c":0,"d":null,"e":"true","f":[1.5]}`},
+		{`[[1,2],[3,4],[5,6]]`, `[[5,6],[1,2,3],[3,4]]`},
 	}
 	for _, s := range seeds {
 		f.Add([]byte(s[0]), []byte(s[1]))
